@@ -267,11 +267,12 @@ theorem size_gate_inside (gates : List Gate) (hm : sizeTest ∈ gates) (hasData 
 
 /-- **The gates of the source** (regenerated, structured; order-independent): every leading `if … { return }` of
     `KittyImage.Draw` and of `Sixel.Draw` is one the extractor knows — "no data", "still encoding" or the size test
-    exactly as `X.w > w || X.h > h` —, both methods have the size test, and only `Sixel.Draw` tests for data. -/
+    exactly as `X.w > w || X.h > h`, or (round 4, F520) "the image has no cells" —, both methods have the size test, only
+    `Sixel.Draw` tests for data, and `KittyImage.Draw` refuses an image without cells. -/
 theorem draw_gates_shape :
-    (∀ g ∈ kittyGates ++ sixelGates, g = .noData ∨ g = .encoding ∨ g = sizeTest) ∧
+    (∀ g ∈ kittyGates ++ sixelGates, g = .noData ∨ g = .encoding ∨ g = sizeTest ∨ g = .zeroSize) ∧
     sizeTest ∈ kittyGates ∧ sizeTest ∈ sixelGates ∧ Gate.encoding ∈ kittyGates ∧ Gate.encoding ∈ sixelGates ∧
-    Gate.noData ∈ sixelGates ∧ Gate.noData ∉ kittyGates := by decide
+    Gate.noData ∈ sixelGates ∧ Gate.noData ∉ kittyGates ∧ Gate.zeroSize ∈ kittyGates := by decide
 
 theorem sixel_placement_inside (sw sh : Int) (win : VaxisModel.Model.Window.Win) (hd : sixelDrawn sw sh win = true) :
     placementInside sw sh win ∧
@@ -345,13 +346,14 @@ theorem too_large_not_drawn (p : Proto) (hasData encoding : Bool) (iw ih : Int) 
     unfold placementInside at this
     omega
 
-/-- …and an image with data that is not being encoded and fits *is* drawn: the gates refuse nothing else. -/
+/-- …and an image with data that is not being encoded, has cells and fits *is* drawn: the gates refuse nothing else. -/
 theorem fitting_drawn (p : Proto) (iw ih : Int) (win : VaxisModel.Model.Window.Win)
-    (h : placementInside iw ih win) : drawnWith p.gates true false iw ih win = true := by
+    (h : placementInside iw ih win) (hz : iw ≠ 0 ∧ ih ≠ 0) : drawnWith p.gates true false iw ih win = true := by
   obtain ⟨hw, hh⟩ := h
+  obtain ⟨hz1, hz2⟩ := hz
   have a : ¬ (iw > win.width) := by omega
   have b : ¬ (ih > win.height) := by omega
-  have hk : ∀ g ∈ p.gates, g = .noData ∨ g = .encoding ∨ g = sizeTest := by
+  have hk : ∀ g ∈ p.gates, g = .noData ∨ g = .encoding ∨ g = sizeTest ∨ g = .zeroSize := by
     intro g hg
     apply draw_gates_shape.1 g
     cases p
@@ -360,7 +362,7 @@ theorem fitting_drawn (p : Proto) (iw ih : Int) (win : VaxisModel.Model.Window.W
   unfold drawnWith
   rw [List.all_eq_true]
   intro g hg
-  rcases hk g hg with rfl | rfl | rfl <;> simp [gateFires, connBool, cmpInt, a, b]
+  rcases hk g hg with rfl | rfl | rfl | rfl <;> simp [gateFires, connBool, cmpInt, a, b, hz1, hz2]
 
 /-! ## Upload bookkeeping of kitty images -/
 
